@@ -240,7 +240,8 @@ def base_slots(name):
 
 SCIPY_NAME = {"WeibullDistribution": "weibull_min", "LogNormalDistribution": "lognorm", "NormalDistribution": "norm",
               "ExponentiatedWeibullDistribution": "exponweib", "GeneralizedGammaDistribution": "gengamma",
-              "VonMisesDistribution": "vonmises"}
+              "VonMisesDistribution": "vonmises", "GammaScipyDistribution": "gamma", "BetaScipyDistribution": "beta",
+              "GumbelScipyDistribution": "gumbel_r"}
 
 
 def reference_fit(case, x, before):
@@ -531,7 +532,7 @@ def check_lsq(case):
 def grammar_check(ck):
     """Model `fitTarget` vs what scipy.stats.<d>.fit accepts and pins (optimizer short-circuited)."""
     dists = sorted({r["outcome"][1] for r in TABLES["fit"] if r["outcome"][0] == "called"} |
-                   {"weibull_min", "lognorm", "norm", "exponweib", "gengamma", "vonmises", "gamma", "beta"})
+                   {"weibull_min", "lognorm", "norm", "exponweib", "gengamma", "vonmises", "gamma", "beta", "gumbel_r"})
     rng = np.random.default_rng(12345)
     lines, todo = [], []
     for dn in dists:
